@@ -83,6 +83,20 @@ CLAIMS = {
              "typed arrays for EVERY double.",
         technique="differential symbolic execution of the array built-ins vs a spec transcription (CrossHair/z3)",
         design_ref="DESIGN.md section 4 (C17)"),
+    "C18": dict(
+        text="Number->string: for 11 digit patterns x every decimal exponent in [-330, 310] x sign (solver-chosen), the "
+             "implicit conversion, String(), toString(), toString(10), toPrecision() and the JSON text must equal the "
+             "ECMAScript layout (exponent notation exactly outside [1e-6, 1e21), e+/e- without padding, -0 as 0); "
+             "toFixed/toExponential/toPrecision over a boundary grid x digit counts against an exact rational-arithmetic "
+             "transcription (calibrated against node); toString(radix) for integers and every radix in [-2, 40]. "
+             "String->number: Number()/unary +/arithmetic coercion, parseFloat and parseInt (radix grid incl. NaN, "
+             "Infinity, 2**32+16, 37) over token strings from a 30-token alphabet (signs, radix prefixes, exponents, "
+             "ECMAScript and non-ECMAScript whitespace, non-ASCII digits) against the transcribed grammar. Math: every "
+             "function x a special-value grid must not raise and must return the specified special results. The digit "
+             "generators (host dtoa/strtod) and libm accuracy are trusted, not checked.",
+        technique="solver-indexed differential checking of the number<->string code vs transcribed ECMAScript algorithms "
+                  "(CrossHair/z3 drives finite index domains; the engine code here crosses into C and cannot stay symbolic)",
+        design_ref="DESIGN.md section 4 (C18)"),
     "C20": dict(
         text="lastIndex protocol as ONE step from an arbitrary state: for each (pattern, flag set) the script-level "
              "RegExp object gets a solver-chosen lastIndex (integers, negatives, fractions, NaN, infinities, strings, "
